@@ -106,7 +106,15 @@ impl Shape {
             cx.count("stores of 70-150 records with one very long title");
         }
         let limit = if crowd { 200 } else { *cx.rng.pick(&[10, 10, 10, 1, 2, 3, 65536]) };
-        let st = St::build_sentinel(lang, &recs, limit);
+        // C05/C09 read the spans from sentinel markers; one store in three is configured with sentinel
+        // runs of different lengths (1-3 characters each), collapsed again before the hit is parsed, so
+        // that position arithmetic depending on the marker lengths is exercised as well
+        let (wa, wb) = if self.0 != Which::Titles && cx.rng.chance(1, 3) { (cx.rng.range(1, 3), cx.rng.range(1, 3)) } else { (1, 1) };
+        let (wide_l, wide_r): (String, String) = ((0..wa).map(|_| S1).collect(), (0..wb).map(|_| S2).collect());
+        let st = St::build(lang, &recs, limit, (&wide_l, &wide_r));
+        if wa != wb {
+            cx.count("stores with opening and closing markers of different lengths");
+        }
         let (ml, mr) = *cx.rng.pick(gen::MARKERS);
         let st_m = if self.0 == Which::Titles { Some(St::build(lang, &recs, limit, (ml, mr))) } else { None };
         let toks: Vec<TextOwn> = recs.iter().map(|r| st.tok_record(&r.1)).collect();
@@ -115,6 +123,7 @@ impl Shape {
             let q = if crowd && cx.rng.chance(1, 2) { if cx.rng.chance(1, 2) { "metal".to_string() } else { recs[3.min(recs.len() - 1)].1.clone() } } else { shape_query(&mut cx.rng, lang, &st.store.lang, &recs, self.0) };
             cx.ctx(format!("lang={} records={} limit={} q={:?} markers=({:?},{:?})", lang, recs.len(), limit, q, ml, mr));
             let hits = st.search(&q);
+            let hits: Hits = if wa == 1 && wb == 1 { hits } else { hits.into_iter().map(|(id, t)| (id, t.replace(&wide_l, &S1.to_string()).replace(&wide_r, &S2.to_string()))).collect() };
             let tq = st.tok_query(&q);
             let describe = |hit: &(usize, String)| json!({"lang": lang, "records": recs, "limit": limit, "query": q, "hit": {"id": hit.0, "title": hit.1}});
             match self.0 {
@@ -602,7 +611,7 @@ impl Prop for Shape {
         match self.0 {
             Which::Titles => vec![("hit with span", 2000, 20000), ("hit whose title needed composition", 50, 500), ("hit with expanding letter", 50, 500), ("hit whose title has NUL", 30, 300), ("hit whose title contains marker text", 50, 500), ("bridge searches with hits", 200, 2000), ("empty-query searches", 100, 1000), ("stores of 70-150 records with one very long title", 100, 5000)],
             Which::Related => vec![("hit with fuzzy span", 200, 2000), ("hit with joined-record spans", 20, 200), ("exact-prefix case", 2000, 20000), ("exact-prefix ending inside an expanded letter", 5, 50), ("corpus-store searches", 300, 8000), ("corpus-store searches with more than 8 query words", 50, 1200), ("big-catalogue searches", 100, 1000)],
-            Which::Markup => vec![("hit with 2+ spans", 500, 5000), ("joined-record split (more spans than query words)", 20, 200), ("hit of separator-only query", 200, 2000), ("span in title with padding", 30, 300), ("joined-with-typos hits with 2+ spans and typos", 2000, 100000)],
+            Which::Markup => vec![("hit with 2+ spans", 500, 5000), ("joined-record split (more spans than query words)", 20, 200), ("hit of separator-only query", 200, 2000), ("span in title with padding", 30, 300), ("joined-with-typos hits with 2+ spans and typos", 2000, 100000), ("stores with opening and closing markers of different lengths", 1000, 10000)],
         }
     }
     fn run(&self, cx: &mut Cx, stream: &str, idx: u64) {
